@@ -30,8 +30,13 @@ static uint8_t val3(int profile, int salt) { return profile == 0 ? (uint8_t) (sa
  * (look-ups that compare only a prefix or only up to the shorter length confuse them); the other profiles number them */
 static int g_prefix_ids;
 static void nm(char *out, size_t n, const char *base, int k) { if (!g_prefix_ids) { snprintf(out, n, "%s%d", base, k); return; } size_t o = (size_t) snprintf(out, n, "%s", base); for (int i = 0; i < k && o + 1 < n; i++) out[o++] = '0'; out[o] = 0; }
-static long valid_count(void) { return (12L + 144 + 144) * 3 * 3 * 6; }
+#define VALID_BASE ((12L + 144 + 144) * 3 * 3 * 6)
+/* after the generated shapes: the class byte of the unique id swept over all 256 values, for the second of two boards and for a
+ * single (root) board — booster and track output are derived from single bits of it, every other bit must not matter */
+static long valid_count(void) { return VALID_BASE + 512; }
 static void gen_valid(long idx, cm_model_t *m) {
+	if (idx >= VALID_BASE) { long c = idx - VALID_BASE; int root = c >= 256;
+		gen_valid(root ? (5L * 3 * 3 * 6 + 7) : ((12L + 5 + 12 * 3) * 3 * 3 * 6 + 7), m); m->b[root ? 0 : 1].uid[0] = (uint8_t) c; return; }
 	memset(m, 0, sizeof *m);
 	int tp = (int) (idx % 6); idx /= 6; int naspects = 1 + (int) (idx % 3); idx /= 3; int vp = (int) (idx % 3); idx /= 3;
 	int nb, prof[3] = {0, 0, 0};
@@ -90,7 +95,8 @@ static void check_getters(const cm_model_t *m) {
 		if (!ok) res_violation("getter-differs-from-declaration getter=bidib_get_board_features", "board %s: %zu features reported, %d declared", B->id, fq.length, B->nfeatures);
 		bidib_free_board_features_query(fq);
 		t_bidib_unique_id_query uq = bidib_get_uniqueid(B->id);
-		if (!uq.known || uq.unique_id.class_id != B->uid[0] || uq.unique_id.product_id3 != B->uid[5] || uq.unique_id.product_id4 != B->uid[6]) res_violation("getter-differs-from-declaration getter=bidib_get_uniqueid", "board %s", B->id);
+		/* bidib_get_uniqueid (not one of the enumeration getters of the property) reserves the class byte 0xFF as its "not known" marker */
+		if (B->uid[0] != 0xFF && (!uq.known || uq.unique_id.class_id != B->uid[0] || uq.unique_id.product_id3 != B->uid[5] || uq.unique_id.product_id4 != B->uid[6])) res_violation("getter-differs-from-declaration getter=bidib_get_uniqueid", "board %s", B->id);
 		for (int k = 0; k < B->npb + B->npd; k++) { const char *id = k < B->npb ? B->pb[k].id : B->pd[k - B->npb].id; int na = k < B->npb ? B->pb[k].naspects : B->pd[k - B->npb].naspects; n = 0;
 			for (int q = 0; q < na; q++) ids[n++] = k < B->npb ? B->pb[k].aspects[q].id : B->pd[k - B->npb].aspects[q].id; snprintf(what, sizeof what, "bidib_get_point_aspects(%s)", id); cmp_list(what, bidib_get_point_aspects(id), ids, n); }
 		for (int k = 0; k < B->nsb + B->nsd; k++) { const char *id = k < B->nsb ? B->sb[k].id : B->sd[k - B->nsb].id; int na = k < B->nsb ? B->sb[k].naspects : B->sd[k - B->nsb].naspects; n = 0;
@@ -130,7 +136,9 @@ static void valid_child(const void *job, size_t n) {
 static size_t valid_gen(long idx, uint8_t *payload, char *human, size_t hn) {
 	uint32_t s = (uint32_t) idx, c = 1; memcpy(payload, &s, 4); memcpy(payload + 4, &c, 4);
 	cm_model_t *m = malloc(sizeof *m); gen_valid(idx, m);
-	snprintf(human, hn, "generated valid configuration #%ld: %d boards, %d trains", idx, m->nb, m->nt); free(m); return 8;
+	if (idx >= VALID_BASE) snprintf(human, hn, "generated valid configuration: %d board(s), class byte 0x%02lx in the unique id of the %s board", m->nb, (idx - VALID_BASE) & 255, idx - VALID_BASE >= 256 ? "only" : "second");
+	else snprintf(human, hn, "generated valid configuration #%ld: %d boards, %d trains", idx, m->nb, m->nt);
+	free(m); return 8;
 }
 /* ---------------------------------------------------------------- invalid side */
 enum { F_DUP_BOARD_ID, F_DUP_BOARD_UID, F_DUP_POINT_ID, F_DUP_SIGNAL_ID, F_DUP_PERIPH_ID, F_DUP_SEG_ID, F_DUP_REV_ID, F_DUP_TRAIN_ID,
